@@ -142,7 +142,8 @@ let run line =
   | L [A "J"; a; b] ->
     (match urljoin (url_of a) (url_of b) with
      | None -> "{\"r\":\"ValueError\"}"
-     | Some u -> Printf.sprintf "{\"r\":\"ok\",\"url\":%s}" (js u.raw))
+     | Some u -> Printf.sprintf "{\"r\":\"ok\",\"url\":%s,\"parsed\":%s}" (js u.raw)
+                   (jopt (fun p -> jlist js [p.u_scheme; p.u_netloc; p.u_path; p.u_query]) u.parsed))
   | _ -> "{\"r\":\"BAD\"}"
 
 let () =
